@@ -78,6 +78,27 @@ theorem C28_transcript_order (ka : Bool) (segs : List Seg) (scs : List Script) :
   obtain ⟨n, tail, hn, hs, hb, ht⟩ := serveFrom_transcript ka segs 0 0 scs {}
   exact ⟨n, tail, hn, by simpa [serve, List.range_eq_range'] using hs, by simpa [serve] using hb, ht⟩
 
+/-- **C28_segmentation_independent.**  What a byte-at-a-time reader (request line, header lines, chunk
+    size lines, bodies: anything defined by a `step` function) returns, and what it leaves unread, depends
+    only on the CONCATENATION of the segments the client's bytes arrive in — for every way of cutting the
+    stream into reads (after a header line, inside a line, between requests, one byte per read).
+    The serve-loop model `serve` reads descriptors, not segments, so its output is the same for every
+    segmentation by construction; this theorem is the byte-level counterpart, and the correspondence run
+    ties both to the code with the segmented `l` / `1` / `r<seed>` cases (same observed requests, offsets
+    and response bytes as the model for every segmentation). -/
+theorem C28_segmentation_independent {σ ρ : Type} (step : σ → UInt8 → σ ⊕ ρ) (eof : σ → ρ)
+    (fuel : Nat) (s : σ) (segs : List BfeVerif.C27.Bytes) :
+    ((runSeg step eof fuel s segs).1, (runSeg step eof fuel s segs).2.flatten) =
+    ((runSeg step eof fuel s [segs.flatten]).1, (runSeg step eof fuel s [segs.flatten]).2.flatten) :=
+  runSeg_flatten step eof fuel s segs
+
+/-! Non-vacuity: the header line `Content-Length: 5` cut exactly at its end, in the middle, and bytewise
+    reads back as the same line with the same rest (the situation of seeded/C28-c). -/
+example : runSeg lineStep (fun a => a.reverse) 100 [] [[67, 76, 58, 53, 13, 10], [88, 58, 49, 13, 10]]
+        = ([67, 76, 58, 53], [[], [88, 58, 49, 13, 10]]) := by decide
+example : (runSeg lineStep (fun a => a.reverse) 100 [] [[67, 76], [58, 53, 13], [10, 88, 58, 49, 13, 10]]).1
+        = [67, 76, 58, 53] := by decide
+
 /-- No request is read after a message whose end the loop's own reader reports as an error reply
     (400 / 413 / 414): the loop stops. -/
 theorem C28_stop_after_error (ka : Bool) (pos i : Nat) (rest : List Seg) (scs : List Script) (o : Out) :
